@@ -45,6 +45,8 @@ const ENTRIES: &[Ent] = &[
     Ent::File("sub/sub2/a"),
     Ent::File("sub.x/a"),
     Ent::File("sub-/b"),
+    Ent::File("\\a"),
+    Ent::File("\\"),
     Ent::Link("lnk", "a"),
     Ent::Link("dlnk", "sub"),
 ];
@@ -389,6 +391,10 @@ pub fn run(tier: Tier) -> i32 {
     for extra in ["[!a]", "[^a]", "[a-b]", "*/a", "*/.a", "s*/a", "*/*", "*/*/a", "sub*/?", "?ub/a", "*/", "./*", "sub/*"] {
         fields.push(extra.chars().collect());
     }
+    // a literal backslash followed by wildcards (the backslash itself is always quoted)
+    for extra in ["\\*", "\\?", "\\[a]", "*\\*", "\\a*", "\\", "a\\*", "?\\"] {
+        fields.push(extra.chars().collect());
+    }
     fields.retain(|f| !f.starts_with(&['/']));
     let evals = AtomicU64::new(0);
     let unspec = AtomicU64::new(0);
@@ -404,10 +410,20 @@ pub fn run(tier: Tier) -> i32 {
             let mut env = make_env(ents, cwd, noglob);
             for (fi, chars) in fields.iter().enumerate() {
                 let metas = chars.iter().filter(|c| matches!(c, '*' | '?' | '[' | ']' | '.')).count();
-                let mut styles: Vec<Style> = vec![Style::Mask(0, true), Style::Var, Style::DqVar];
+                let has_backslash = chars.contains(&'\\');
+                let mut styles: Vec<Style> = if has_backslash { vec![] } else { vec![Style::Mask(0, true), Style::Var, Style::DqVar] };
                 // quoting masks: every mask for short fields, single-position masks otherwise
                 let len = chars.len();
-                if metas > 0 {
+                if has_backslash {
+                    // every mask in which each backslash is quoted, in both quoting styles
+                    let must: u32 = chars.iter().enumerate().filter(|(_, c)| **c == '\\').map(|(i, _)| 1u32 << i).sum();
+                    for m in 0..(1u32 << len) {
+                        if m & must == must {
+                            styles.push(Style::Mask(m, true));
+                            styles.push(Style::Mask(m, false));
+                        }
+                    }
+                } else if metas > 0 {
                     if len <= 3 {
                         for m in 1..(1u32 << len) {
                             styles.push(Style::Mask(m, true));
